@@ -297,10 +297,16 @@ func c20BuildWorld(r *mon.Run) (w *world.World, big entity.Id, small entity.Id, 
 		return fail(err)
 	}
 	for k, id := range r0Bugs[1 : len(r0Bugs)-1] {
-		if err := w.Edit(r0, id, []world.OpSpec{
+		specs := []world.OpSpec{
 			{Kind: "labels", Add: []string{labels[(k+3)%len(labels)], labels[(k+5)%len(labels)]}, Author: k},
 			{Kind: "comment", Text: "a comment", Author: k + 1},
-		}); err != nil {
+		}
+		if k == 0 {
+			// a bug that went through a bridge export: it carries set-metadata operations
+			specs = append(specs, world.OpSpec{Kind: "meta", Text: "exported"}, world.OpSpec{Kind: "comment", Text: "after the export", Author: k})
+			c20BridgedBug = id
+		}
+		if err := w.Edit(r0, id, specs); err != nil {
 			return fail(err)
 		}
 	}
@@ -345,6 +351,9 @@ func c20BuildWorld(r *mon.Run) (w *world.World, big entity.Id, small entity.Id, 
 	return w, big, small, nil
 }
 
+// c20BridgedBug is the bug of the served world that carries a set-metadata operation.
+var c20BridgedBug entity.Id
+
 // c20EndToEnd walks the paginated GraphQL fields of a served repository.
 var c20EndToEnd = func(r *mon.Run) {
 	defer func() {
@@ -377,6 +386,13 @@ var c20EndToEnd = func(r *mon.Run) {
 	// a second, short bug: lists of length 1..2
 	for _, bf := range []string{"comments", "timeline", "operations"} {
 		fields = append(fields, e2eField{Key: "bug." + bf, Schema: "Bug." + bf, Field: bf, BugId: small.String(), NodeKey: "id"})
+	}
+
+	// a bug with an operation kind that changes no visible state (set-metadata, as the bridge exporters write)
+	if c20BridgedBug != "" {
+		for _, bf := range []string{"operations", "timeline", "comments"} {
+			fields = append(fields, e2eField{Key: "bug." + bf + "[bug-with-set-metadata-operation]", Schema: "Bug." + bf, Field: bf, BugId: c20BridgedBug.String(), NodeKey: "id"})
+		}
 	}
 
 	// which paginated fields does the served schema have? (newly added ones are listed as not walked)
